@@ -191,7 +191,11 @@ func (r *renderer) vname(v *Var) string {
 	case v.CallOf != nil:
 		return r.qual(v.CallOf.Pkg) + v.CallOf.Name + "()"
 	case v.PkgNamed != nil:
-		return strings.TrimSuffix(r.qual(v.PkgNamed), ".")
+		// only the spelling of the qualifier is borrowed; no import is implied
+		if a := r.f.Aliases[v.PkgNamed]; a != "" {
+			return a
+		}
+		return v.PkgNamed.Name
 	}
 	return v.Name
 }
@@ -636,9 +640,18 @@ func renderFile(f *File) {
 	for ip := range r.imports {
 		imps = append(imps, ip)
 	}
+	var blanks []*Pkg
+	for _, bp := range f.BlankImports {
+		if !r.imports[bp] && bp != f.Pkg {
+			blanks = append(blanks, bp)
+		}
+	}
 	sort.Slice(imps, func(i, j int) bool { return imps[i].Dir < imps[j].Dir })
-	if len(imps) > 0 {
+	if len(imps)+len(blanks) > 0 {
 		head = append(head, "import (")
+		for _, bp := range blanks {
+			head = append(head, fmt.Sprintf("\t_ %q", bp.Path()))
+		}
 		for _, ip := range imps {
 			if a := f.Aliases[ip]; a != "" {
 				head = append(head, fmt.Sprintf("\t%s %q", a, ip.Path()))
@@ -652,7 +665,7 @@ func renderFile(f *File) {
 	f.Lines = append(head, r.lines...)
 	// shift recorded node lines by the header length
 	shiftDecls(f.Decls, off)
-	f.Imports = imps
+	f.Imports = append(imps, blanks...)
 }
 
 func shiftNode(n *Node, off int) {
